@@ -389,7 +389,15 @@ func mk(sc scen, qb, tb int, w float64) d1x.Scenario {
 		New: func() vsched.Harness { return &h{sc: sc} }}
 }
 
-func scenarios(prop string) []d1x.Scenario {
+func scenarios(prop string, thorough bool) []d1x.Scenario {
+	if prop == "C06" && thorough {
+		// the whole-DB read-your-writes scenarios (C07's oracle) ride along in the thorough tier
+		return append(scenarios1("C06"), scenarios1("C07")...)
+	}
+	return scenarios1(prop)
+}
+
+func scenarios1(prop string) []d1x.Scenario {
 	nowal := hx.Config{Name: "nowal", DisableWAL: true}
 	wal := hx.Config{Name: "wal"}
 	small := hx.Config{Name: "tinymem-nowal", DisableWAL: true, MemTableSize: 64 << 10}
@@ -401,7 +409,7 @@ func scenarios(prop string) []d1x.Scenario {
 			mk(scen{name: "same-keys-2x2-iterfwd", cfg: nowal, pre: []string{"0", "z"}, batches: []batchSpec{B("a", "b"), B("a", "b")}, readers: []string{"iter-fwd"}}, 1, 2, 1),
 			mk(scen{name: "disjoint-2x2-snapget", cfg: nowal, pre: []string{"0", "z"}, batches: []batchSpec{B("a", "c"), B("b", "d")}, readers: []string{"snap-get"}}, 1, 2, 1),
 			mk(scen{name: "disjoint-2x2-iterbwd", cfg: nowal, pre: []string{"0", "z"}, batches: []batchSpec{B("a", "c"), B("b", "d")}, readers: []string{"iter-bwd"}}, 1, 2, 1),
-			mk(scen{name: "disjoint-3x2-iterfwd", cfg: nowal, batches: []batchSpec{B("a", "d"), B("b", "e"), B("c", "f")}, readers: []string{"iter-fwd"}}, 1, 1, 1),
+			mk(scen{name: "disjoint-3x2-iterfwd", cfg: nowal, batches: []batchSpec{B("a", "d"), B("b", "e"), B("c", "f")}, readers: []string{"iter-fwd"}}, 0, 1, 1),
 			mk(scen{name: "wal-sync-disjoint-2x2-iterfwd", cfg: wal, batches: []batchSpec{{keys: []string{"a", "c"}, sync: true}, {keys: []string{"b", "d"}, sync: true}}, readers: []string{"iter-fwd"}}, 1, 1, 1),
 			mk(scen{name: "flushable-big-batch", cfg: small, batches: []batchSpec{{keys: []string{"a", "c"}, big: true}, B("b", "d")}, readers: []string{"iter-fwd"}}, 0, 1, 1),
 			mk(scen{name: "set+delete-batches", cfg: nowal, preL0: []string{"a", "b"}, batches: []batchSpec{{keys: []string{"c"}, del: []string{"a"}}, {keys: []string{"d"}, del: []string{"b"}}}, readers: []string{"snap-fwd"}}, 1, 2, 1),
@@ -421,6 +429,6 @@ func scenarios(prop string) []d1x.Scenario {
 
 func TestCheck(t *testing.T) {
 	vlib.Main(t, "C06", func(c *vlib.Ctx) {
-		d1x.Run(t, c, scenarios(c.Prop))
+		d1x.Run(t, c, scenarios(c.Prop, c.Thorough()))
 	})
 }
